@@ -99,6 +99,16 @@ func c16Sets() []*sgen.Schema {
 			{Kind: sgen.KEnum, Name: "E", Values: []*sgen.EnumVal{{Name: "X"}}},
 			{Kind: sgen.KEnum, Name: "E", Extend: true, Values: []*sgen.EnumVal{{Name: "Y"}}},
 		}},
+		// a type and a directive of the same name (two name spaces): a use of the directive means the directive wherever the
+		// type of that name arrived
+		{Defs: []*sgen.Def{
+			{Kind: sgen.KObject, Name: "Query", Fields: []*sgen.Field{f("v", N("Tag")), f("s", N("Mark"))}},
+			{Kind: sgen.KObject, Name: "Tag", Fields: []*sgen.Field{f("x", N("Int"))}},
+			{Kind: sgen.KDirective, Name: "Tag", Locations: []string{"OBJECT", "ENUM"}},
+			{Kind: sgen.KObject, Name: "X", Dirs: []sgen.DirUse{{Name: "Tag"}}, Fields: []*sgen.Field{f("y", N("Int"))}},
+			{Kind: sgen.KEnum, Name: "Mark", Dirs: []sgen.DirUse{{Name: "Mark"}, {Name: "Tag"}}, Values: []*sgen.EnumVal{{Name: "M"}}},
+			{Kind: sgen.KDirective, Name: "Mark", Locations: []string{"ENUM"}},
+		}},
 	}
 }
 
